@@ -428,13 +428,23 @@ theorem no_shadow_init (span : List Nat) (kind : SpanKind) (strict : Bool) : NoS
   intro name hn
   simp [init, Store.index] at hn
 
+theorem no_shadow_addAttribute {s : Store} (h : NoShadow s) (name : Name) :
+    NoShadow (addAttribute cfg s name).1 := by
+  rcases addAttribute_cases cfg s name with hc | ⟨hc, hi, _, _⟩
+  · rw [hc]; exact h
+  · rw [hc]
+    refine h.mono rfl (fun a ha => ?_)
+    rcases List.mem_append.mp ha with h1 | h1
+    · exact Or.inl h1
+    · right; simp at h1; rw [h1]; simpa using hi
+
 /-- **With the candidate fix, no operation can make an attribute shadow a variable** (`add_variable` refuses
     attribute names, `add_attribute` and `__setattr__` refuse / never reuse variable names). -/
 theorem no_shadow_step (hc : cfg.addVarChecksAttrs = true) {s : Store} (h : NoShadow s) (op : Op) :
     NoShadow (step cfg s op).1 := by
   cases op with
   | addVariable name v dtype =>
-    rcases addVariable_cases cfg s name v dtype with ⟨e, he⟩ | ⟨a, _, _, _, hat, he⟩
+    rcases addVariable_cases cfg s name v dtype with ⟨e, he⟩ | ⟨a, _, _, _, hat, _, he⟩
     · rw [show step cfg s (.addVariable name v dtype) = addVariable cfg s name v dtype from rfl, he]; exact h
     · rw [show step cfg s (.addVariable name v dtype) = addVariable cfg s name v dtype from rfl, he]
       have hna : name ∉ s.attrs := by
@@ -446,17 +456,7 @@ theorem no_shadow_step (hc : cfg.addVarChecksAttrs = true) {s : Store} (h : NoSh
       rcases hnm with h1 | h1
       · exact h nm h1
       · rw [h1]; exact hna
-  | addAttribute name =>
-    simp only [step, addAttribute]
-    split
-    · exact h
-    · rename_i hi
-      split
-      · exact h
-      · refine h.mono rfl (fun a ha => ?_)
-        rcases List.mem_append.mp ha with h1 | h1
-        · exact Or.inl h1
-        · right; simp at h1; rw [h1]; simpa using hi
+  | addAttribute name => exact no_shadow_addAttribute h name
   | setAttr name v alts =>
     simp only [step, setAttr]
     split
@@ -473,10 +473,7 @@ theorem no_shadow_step (hc : cfg.addVarChecksAttrs = true) {s : Store} (h : NoSh
           · right; rw [h1]; exact hni
         · split
           · exact h
-          · refine h.mono rfl (fun a ha => ?_)
-            rcases List.mem_append.mp ha with h1 | h1
-            · exact Or.inl h1
-            · right; simp at h1; rw [h1]; exact hni
+          · exact no_shadow_addAttribute h name
   | setItem name v =>
     exact h.mono (setItem_index _ _ _) (fun a ha => Or.inl ((setItem_attrs _ _ _).1 ▸ ha))
   | setPos name i v =>
